@@ -30,6 +30,27 @@ pub(crate) fn decompress(data: &[u8], expected_size: usize) -> Result<Vec<u8>> {
     Ok(decompressed)
 }
 
+/// Decompress a BZip2 stream whose exact output size is not known, such as the outer
+/// stage of a multi-compression block (what comes out is the input of the next
+/// stage, not the file data). At most `max_size` bytes are accepted.
+pub(crate) fn decompress_up_to(data: &[u8], max_size: usize) -> Result<Vec<u8>> {
+    let mut decoder = BzDecoder::new(data).take(max_size as u64 + 1);
+    let mut decompressed = Vec::new();
+
+    decoder
+        .read_to_end(&mut decompressed)
+        .map_err(|e| decompression_error("BZip2", e))?;
+
+    if decompressed.len() > max_size {
+        return Err(decompression_error(
+            "BZip2",
+            format!("Decompressed data exceeds the limit of {max_size} bytes"),
+        ));
+    }
+
+    Ok(decompressed)
+}
+
 /// Compress using BZip2
 pub(crate) fn compress(data: &[u8]) -> Result<Vec<u8>> {
     let mut encoder = BzEncoder::new(Vec::new(), Compression::default());
